@@ -535,6 +535,46 @@ def add_near_duplicate(rng, ast, ops=('and', 'or', 'implies')):
     return [ops[rng.randrange(len(ops))], ast, dup] if rng.random() < 0.5 else [ops[rng.randrange(len(ops))], dup, ast]
 
 
+TWIN_FAMILIES = [('+', '-', '*'), ('log', 'pow'), ('and', 'or', 'implies', 'iff', 'xor'), ('once', 'historically'), ('eventually', 'always'),
+                 ('once_b', 'historically_b'), ('eventually_b', 'always_b'), ('rise', 'fall'), ('prev', 's_prev'), ('next', 's_next'),
+                 ('since', 'until'), ('abs', 'neg')]
+
+
+def add_operator_twin(rng, ast, ops=None):
+    """ast combined with a twin of one of its sub-trees: the same operands under another operator of the same family
+    (log(A,B) and pow(A,B), once[a,b] p and historically[a,b] p ...). Operands of log are inside the domain of pow and vice versa
+    because the generator wraps them; returns ast unchanged when no sub-tree has a usable twin."""
+    fam = {}
+    for f in TWIN_FAMILIES:
+        for o in f:
+            fam[o] = [x for x in f if x != o and (ops is None or x in ops)]
+    cands = [(p, x) for p, x in _subtree_paths(ast) if fam.get(x[0])]
+    if not cands:
+        return ast
+    # every operator family present gets the same weight (rare operators such as log are not drowned by and/or)
+    present = sorted(set(x[0] for _, x in cands))
+    pick = present[rng.randrange(len(present))]
+    cands = [(p, x) for p, x in cands if x[0] == pick]
+    p, x = cands[rng.randrange(len(cands))]
+    other = fam[x[0]][rng.randrange(len(fam[x[0]]))]
+    twin = [other] + list(x[1:])
+    if x[0] == 'log':        # log(|u|+1, |v|+2) -> pow(|u|+1, |v|+2): same operands, both inside both domains
+        pass
+    if x[0] in TERM_UN + TERM_BIN:
+        # term-valued: the twin needs a predicate of its own; take the closest enclosing predicate and swap the term in it
+        for k in range(len(p), -1, -1):
+            anc = ast
+            for i in p[:k]:
+                anc = children(anc)[i]
+            if anc[0] == 'pred':
+                twin = _replace_at(anc, p[k:], twin)
+                break
+        else:
+            return ast
+    op = ('and', 'or', 'implies')[rng.randrange(3)]
+    return [op, ast, twin] if rng.random() < 0.5 else [op, twin, ast]
+
+
 def modularize(rng, ast, max_subs=3, prefer_stateful=True, names=('p1', 'p2', 'p3', 'p4')):
     """Extract random sub-trees into named sub-specifications. Returns (defs, top): defs is an ordered list of
     [name, ast] (later ones may refer to earlier ones), top refers to them through ["ref", name]. Every occurrence
